@@ -81,6 +81,15 @@ func staticFault(r *core.Run, w *world.World, raw *[]byte, pool **x509.CertPool,
 		*raw = q.Bytes()
 		return "qe-report-foreign-signature"
 	case 17:
+		if t.Bool() {
+			// only the hash binding is broken: foreign attestation key, body re-signed with it
+			fk := world.NewKey(t)
+			q := w.Quote.Clone()
+			copy(q.AK[:], fk.Pub64())
+			q.SignBody(fk)
+			*raw = q.Bytes()
+			return "hash-binding-broken"
+		}
 		w.PCS.QE.Hdr = map[string][]string{}
 		return "qe-header-missing"
 	case 18:
